@@ -41,6 +41,8 @@ impl fmt::Display for Id {
 struct Resolver {
     interned: BTreeSet<Rc<String>>,
     input: BTreeMap<Id, Rc<Def>>,
+    /// Long names of base units, which are a second name for the same definition.
+    long_names: BTreeMap<Id, Id>,
     sorted: Vec<Id>,
     unmarked: BTreeSet<Id>,
     temp_marks: BTreeSet<Id>,
@@ -160,6 +162,9 @@ impl Resolver {
             self.unmarked.remove(id);
             self.temp_marks.remove(id);
             self.sorted.push(id.clone());
+        } else if let Some(base_unit) = self.long_names.get(id).cloned() {
+            // Referring to a base unit by its long name depends on the base unit.
+            self.visit(&base_unit);
         }
     }
 }
@@ -297,6 +302,7 @@ pub(crate) fn load_defs(ctx: &mut Context, defs: Defs) -> Vec<String> {
     let mut resolver = Resolver {
         interned: BTreeSet::new(),
         input: BTreeMap::new(),
+        long_names: BTreeMap::new(),
         sorted: vec![],
         unmarked: BTreeSet::new(),
         temp_marks: BTreeSet::new(),
@@ -345,6 +351,18 @@ pub(crate) fn load_defs(ctx: &mut Context, defs: Defs) -> Vec<String> {
                 name,
             },
         };
+        if let Def::BaseUnit {
+            long_name: Some(ref long_name),
+        } = *def
+        {
+            let long_name = Id {
+                namespace: Namespace::Unit,
+                name: resolver.intern(long_name),
+            };
+            if long_name != id {
+                resolver.long_names.insert(long_name, id.clone());
+            }
+        }
         if let Some(doc) = doc {
             resolver.docs.insert(id.clone(), doc);
         }
